@@ -433,7 +433,53 @@ def add_raw_requests(rng, plan, per_session=(1, 5), span=6.0,
     return plan
 
 
-def with_lines(gen, hot=None, p=0.25):
+def race_cluster(rng, plan):
+    """Make two to four actors work on one session in the same instant
+    (requests reach the server in the instant they are issued)."""
+    ss = plan.get('sessions') or []
+    if not ss:
+        return plan
+    plan['fixed_latency'] = 0
+    app = plan.setdefault('app', [])
+    for _ in range(rng.choice([1, 1, 2])):
+        c = rng.randrange(len(ss))
+        s = ss[c]
+        r = ticks(rng, 0.05, 3.0)
+        # the OPEN answer takes one tick: client times count from there
+        t_abs = s.get('t_open', 0.0) + TICK + r
+        ws = s.get('open') == 'websocket'
+        menu = ['end', 'end', 'bad', 'msg', 'poll', 'app_disc', 'app_disc',
+                'app_send', 'app_all', 'open2', 'noop']
+        for what in rng.sample(menu, rng.choice([2, 2, 3, 4])):
+            if what == 'end':
+                s['end'] = {'t': r, 'how': rng.choice(
+                    ['close_packet', 'close_packet', 'ws_close', 'drop']
+                    if ws else ['close_packet'])}
+            elif what in ('bad', 'noop'):
+                d = '7' if what == 'bad' else rng.choice(['6', '3'])
+                if ws:
+                    s.setdefault('frames', []).append({'t': r, 'data': d})
+                    s['frames'].sort(key=lambda x: x['t'])
+                else:
+                    s.setdefault('posts', []).append({'t': r, 'body': d})
+                    s['posts'].sort(key=lambda x: x['t'])
+            elif what == 'poll' and not ws:
+                s.setdefault('poll', {}).setdefault('extra', []).append(r)
+            elif what == 'app_disc':
+                app.append({'t': t_abs, 'op': 'disconnect', 'c': c})
+            elif what == 'app_send':
+                app.append({'t': t_abs, 'op': 'send', 'c': c,
+                            'data': {'k': 's', 'v': 'race-%d' % len(app)}})
+            elif what == 'app_all':
+                app.append({'t': t_abs, 'op': 'disconnect_all'})
+            elif what == 'open2' and len(ss) > 1:
+                o = ss[(c + 1) % len(ss)]
+                o['t_open'] = t_abs
+    app.sort(key=lambda o: o['t'])
+    return plan
+
+
+def with_lines(gen, hot=None, p=0.25, cluster=0.5):
     """Wrap a plan generator: a share ``p`` of the plans that involve threaded
     code of the package run at line granularity."""
     def g(rng, tier, i):
@@ -449,6 +495,8 @@ def with_lines(gen, hot=None, p=0.25):
         if pool and rng.random() < p:
             line_decorate(rng, plan, [x for x in (hot or []) if x in pool],
                           sorted(set(pool)))
+            if cl is None and rng.random() < cluster:
+                race_cluster(rng, plan)
         return plan
     g.lines = True
     return g
